@@ -180,6 +180,109 @@ impl<'tcx> Dumper<'tcx> {
         }
     }
 
+    fn is_foreign_leaf_crate(&self, did: DefId) -> bool {
+        if did.is_local() {
+            return false;
+        }
+        let n = self.tcx.crate_name(did.krate);
+        let n = n.as_str();
+        matches!(n, "std" | "core" | "alloc" | "nom" | "memchr" | "minimal_lexical" | "proc_macro" | "test")
+    }
+
+    fn assoc_fn_named(&self, trait_did: DefId, name: &str) -> Option<DefId> {
+        for it in self.tcx.associated_items(trait_did).in_definition_order() {
+            if it.is_fn() && it.name().as_str() == name {
+                return Some(it.def_id);
+            }
+        }
+        None
+    }
+
+    // std generic code that calls back into user code through a trait bound:
+    // <Rc<T> as Display>::fmt -> <T as Display>::fmt, Into::into -> From::from, to_string -> Display::fmt,
+    // fmt::rt::Argument::new_display::<T> -> <T as Display>::fmt ...
+    fn forwards(
+        &self,
+        owner: LocalDefId,
+        rd: DefId,
+        rargs: ty::GenericArgsRef<'tcx>,
+    ) -> Vec<(DefId, ty::GenericArgsRef<'tcx>)> {
+        let tcx = self.tcx;
+        let mut out = vec![];
+        if !self.is_foreign_leaf_crate(rd) {
+            return out;
+        }
+        let user_tys: Vec<Ty<'tcx>> = rargs
+            .iter()
+            .flat_map(|a| a.walk())
+            .filter_map(|a| a.as_type())
+            .filter(|t| match t.kind() {
+                ty::Adt(adt, _) => !self.is_foreign_leaf_crate(adt.did()),
+                ty::Closure(..) => false,
+                _ => false,
+            })
+            .collect();
+        if user_tys.is_empty() {
+            return out;
+        }
+        let name = self.path_of(rd);
+        let mut try_push = |tm: DefId, args: Vec<ty::GenericArg<'tcx>>| {
+            let a = tcx.mk_args(&args);
+            if let Some((d, da)) = self.resolve(owner, tm, a) {
+                if !self.is_foreign_leaf_crate(d) && !out.iter().any(|(x, _)| *x == d) {
+                    out.push((d, da));
+                }
+            }
+        };
+        use rustc_span::sym;
+        let display = tcx.get_diagnostic_item(sym::Display).and_then(|t| self.assoc_fn_named(t, "fmt"));
+        let debug = tcx.get_diagnostic_item(sym::Debug).and_then(|t| self.assoc_fn_named(t, "fmt"));
+        if name.ends_with("::new_display") || name.ends_with("::to_string") {
+            if let Some(tm) = display {
+                for t in &user_tys {
+                    try_push(tm, vec![(*t).into()]);
+                }
+            }
+            return out;
+        }
+        if name.ends_with("::new_debug") {
+            if let Some(tm) = debug {
+                for t in &user_tys {
+                    try_push(tm, vec![(*t).into()]);
+                }
+            }
+            return out;
+        }
+        if name.ends_with("std::convert::Into<U>>::into") && rargs.len() == 2 {
+            if let Some(tm) = tcx.get_diagnostic_item(sym::From).and_then(|t| self.assoc_fn_named(t, "from")) {
+                try_push(tm, vec![rargs[1], rargs[0]]);
+            }
+            return out;
+        }
+        if name.ends_with("std::convert::TryInto<U>>::try_into") && rargs.len() == 2 {
+            if let Some(tm) = tcx.get_diagnostic_item(sym::TryFrom).and_then(|t| self.assoc_fn_named(t, "try_from")) {
+                try_push(tm, vec![rargs[1], rargs[0]]);
+            }
+            return out;
+        }
+        // generic rule: a trait-impl method of std forwards to the same trait method of the user types
+        if let Some(tm) = tcx.trait_item_of(rd) {
+            if let Some(tr) = tcx.trait_of_assoc(tm) {
+                let n = tcx.generics_of(tr).count();
+                if tcx.generics_of(tm).count() == n {
+                    for t in &user_tys {
+                        if n == 1 {
+                            try_push(tm, vec![(*t).into()]);
+                        } else if n == 2 {
+                            try_push(tm, vec![(*t).into(), (*t).into()]);
+                        }
+                    }
+                }
+            }
+        }
+        out
+    }
+
     fn callee_fields(
         &self,
         owner: LocalDefId,
@@ -200,6 +303,14 @@ impl<'tcx> Dumper<'tcx> {
             }
         }
         if let Some((rd, rargs)) = self.resolve(owner, def_id, args) {
+            let fw = self.forwards(owner, rd, rargs);
+            if !fw.is_empty() {
+                let mut v = vec![];
+                for (d, _) in fw {
+                    v.push(J::obj(vec![("path", jstr(self.path_of(d))), ("id", jstr(self.id_of(d)))]));
+                }
+                o.push(("fwd", J::Arr(v)));
+            }
             if rd != def_id {
                 o.push(("rpath", jstr(self.path_of(rd))));
                 o.push(("rid", jstr(self.id_of(rd))));
@@ -357,6 +468,9 @@ impl<'tcx> Dumper<'tcx> {
                 DefKind::Impl { .. } => {
                     let selfty = tcx.type_of(parent).instantiate_identity().skip_norm_wip();
                     o.push(("impl_self", jstr(self.ty_str(selfty))));
+                    if tcx.is_automatically_derived(parent) {
+                        o.push(("derived", J::Bool(true)));
+                    }
                     if let Some(tr) = tcx.impl_opt_trait_ref(parent) {
                         let tr = tr.instantiate_identity().skip_norm_wip();
                         o.push(("impl_trait", jstr(self.path_of(tr.def_id))));
